@@ -965,3 +965,65 @@ func litParamBinding(prm *ssa.Parameter) ssa.Value {
 	}
 	return site.Common().Args[idx]
 }
+
+// checkConfigNormalisers: every function func(T) T over a configuration
+// struct of package knx (checkTunnelConfig, checkRouterConfig) returns, on
+// every path, each field either unchanged or - numeric fields only - replaced
+// by a constant default.  A normaliser that hands back another struct
+// wholesale silently drops the caller's other settings.
+func checkConfigNormalisers(c *Check, p *Program, rule string, typeName string) {
+	n := 0
+	for _, fn := range p.FuncsIn("knx") {
+		if fn.Parent() != nil || len(fn.Params) != 1 || fn.Signature.Results().Len() != 1 || fn.Signature.Recv() != nil {
+			continue
+		}
+		nt := namedOf(fn.Params[0].Type())
+		if nt == nil || nt.Obj().Name() != typeName || !types.Identical(fn.Params[0].Type(), fn.Signature.Results().At(0).Type()) {
+			continue
+		}
+		stT, ok := nt.Underlying().(*types.Struct)
+		if !ok {
+			continue
+		}
+		n++
+		name := FuncName(fn)
+		li := &layoutInterp{p: p}
+		paths := li.run(fn, []AV{li.valueOfPath("cfg", fn.Params[0].Type())}, nil)
+		bad := ""
+		for _, pp := range paths {
+			if len(pp.notes) > 0 {
+				bad = "not understood: " + strings.Join(pp.notes, "; ")
+				continue
+			}
+			for i := 0; i < stT.NumFields(); i++ {
+				f := stT.Field(i)
+				want := li.valueOfPath("cfg."+f.Name(), f.Type())
+				var got AV
+				switch r := pp.ret.(type) {
+				case avAgg:
+					got = r.elems["."+f.Name()]
+				case avPath:
+					if r.path == "cfg" {
+						got = want
+					}
+				}
+				same := describeAV(got) == describeAV(want) && fmt.Sprintf("%T", got) == fmt.Sprintf("%T", want)
+				if gi, ok := got.(avInt); ok {
+					wi, _ := want.(avInt)
+					same = gi.bv.Equal(wi.bv)
+					if _, isK := gi.bv.Const(); isK {
+						// a constant default, for a numeric field only
+						if bt, okB := f.Type().Underlying().(*types.Basic); okB && bt.Info()&types.IsNumeric != 0 {
+							same = true
+						}
+					}
+				}
+				if !same {
+					bad = fmt.Sprintf("on the path [%s] the result's %s is %s, not the caller's value", pathLabel(pp), f.Name(), describeAV(got))
+				}
+			}
+		}
+		c.Decide(bad == "" && len(paths) > 0, rule, name+" keeps the caller's other settings", p.Pos(fn.Pos()), fmt.Sprintf("%d path(s): every field is the argument's or a numeric default", len(paths)), "the configuration normaliser changes a field it should hand through: "+bad)
+	}
+	c.Floor(rule, "normalisers of knx."+typeName, n, 1)
+}
